@@ -162,6 +162,48 @@ def build(item):
                 sym.check("bin_delta_0_1[%d]" % i, Or(cp.get_bin_hits(i) == before[i], cp.get_bin_hits(i) == before[i] + 1))
         return dict(harness=h, theory="bv", sig=sig, standins=e3.coverage_standins, max_paths=3000,
                     desc="wildcard_bin_array pats=%s nbins=%s" % (pats, nb))
+    if kind == "excluded":
+        # ignore / illegal values are removed from wildcard bins and wildcard bin arrays as from ordinary bins
+        pat, nb, excl, how, single = item["pat"], item["nbins"], item["excl"], item["how"], item["single"]
+        val, m, n = ref_parse(pat)
+        width = n
+        exset = set()
+        for x in excl:
+            exset.update(range(x[0], x[1] + 1) if isinstance(x, (list, tuple)) else [x])
+        vals = set(matching_values(val, m, n)) - exset
+        exp_bins = [sorted(vals)] if single else ref_partition(vals, nb)
+        sig["single"] = single
+
+        def h(sym):
+            e3.reset_coverage_registry()
+            v = sym.int("v", 0, (1 << (width + 1)) - 1)
+            spec = vsc.wildcard_bin(pat) if single else vsc.wildcard_bin_array([] if nb is None else [nb], pat)
+            xb = vsc.bin(*[tuple(x) if isinstance(x, (list, tuple)) else x for x in excl])
+
+            @vsc.covergroup
+            class CG(object):
+                def __init__(self):
+                    self.with_sample(dict(a=vsc.bit_t(width + 1)))
+                    if how == "ignore":
+                        self.cp = vsc.coverpoint(self.a, bins={"w": spec}, ignore_bins={"x": xb})
+                    else:
+                        self.cp = vsc.coverpoint(self.a, bins={"w": spec}, illegal_bins={"x": xb})
+            cg = CG()
+            cp = cg.get_model().coverpoint_l[0]
+            nbins = cp.get_n_bins()
+            sym.check("n_bins", nbins == len(exp_bins))
+            cg.sample(v)
+            for i in range(min(nbins, len(exp_bins))):
+                if single:
+                    # a single wildcard bin looks at the masked bits only
+                    in_bin = And((v & m) == (val & m), *[v != x for x in sorted(exset)])
+                else:
+                    in_bin = Or(*[v == x for x in exp_bins[i]]) if exp_bins[i] else (v != v)
+                sym.check("bin_hit_iff_member[%d]" % i, (cp.get_bin_hits(i) == 1) == in_bin)
+            xh = cp.get_ignore_bin_hits(0) if how == "ignore" else cp.get_illegal_bin_hits(0)
+            sym.check("excluded_counter", (xh == 1) == Or(*[v == x for x in sorted(exset)]))
+        return dict(harness=h, theory="bv", sig=sig, standins=e3.coverage_standins, max_paths=3000,
+                    desc="wildcard %s %s nbins=%s with %s values %s" % ("bin" if single else "bin array", pat, nb, how, excl))
     if kind == "single_signed":
         # the sampled field is signed: a negative sample matches through its two's-complement bit pattern
         pats = [tuple(p) for p in item["pats"]]
@@ -360,6 +402,11 @@ def items_for(t, sd):
     # signed samples, parameterised instances, specification objects used more than once
     for w, pats in ((8, [(0x80, 0x80)]), (8, [(0x0f, 0x0f)]), (4, [(0x8, 0xc), (0x1, 0x3)]), (6, [(0x20, 0x30)]), (8, [(0xff, 0xff)]), (5, [(0, 0x10)])):
         items.append(dict(kind="single_signed", width=w, pats=pats))
+    for pat, excl in (("0b1xxx", [9]), ("0b10xx", [9]), ("0b1x0x", [[8, 9]]), ("0bx1x", [2, 7]), ("0b1xxx", [[10, 13], 15])):
+        for how in ("ignore", "illegal"):
+            items.append(dict(kind="excluded", pat=pat, nbins=None, excl=excl, how=how, single=True))
+            items.append(dict(kind="excluded", pat=pat, nbins=None, excl=excl, how=how, single=False))
+            items.append(dict(kind="excluded", pat=pat, nbins=2, excl=excl, how=how, single=False))
     for p1, p2 in (((0x80, 0xf0), (0x80, 0xff)), ((0x80, 0xf0), (0x80, 0xf0)), ((0x80, 0xfc), (0x80, 0xf3)), ((0x01, 0x01), (0x01, 0x03)), ((0x10, 0xf0), (0x20, 0xf0)),
                    ((0x00, 0x0f), (0x00, 0xff))):
         items.append(dict(kind="two_instances", pats=[p1, p2]))
